@@ -143,7 +143,10 @@ UnitMg == <<109, 103>>
 UnitPool == {UnitMg, <<107, 103, 47, 109, 50>>, <<109, 109, 91, 72, 103, 93>>, <<37>>, <<49>>, <<123, 115, 99, 111, 114, 101, 125>>, <<119, 107>>}
 QtyNums == {D_(<<5>>), D_(<<0>>), D_(<<1>>) \o <<cDot>> \o D_(<<5, 0>>), D_(<<0, 0, 7>>) \o <<cDot>> \o D_(<<2, 5>>),
             D_(<<1, 2, 3, 4, 5, 6, 7, 8, 9, 0, 1, 2, 3, 4, 5, 6, 7, 8, 9>>) \o <<cDot>> \o D_(<<1>>)}
+(* units written with escapes: \u00b5g, a\'b, a\\b (the unit is a STRING token, so escapes are decoded) *)
+EscapedUnits == {<<92, 117, 48, 48, 98, 53, 103>>, <<97, 92, 39, 98>>, <<97, 92, 92, 98>>}
 QuantityTexts == {n \o <<cSpace>> \o <<cSQ>> \o u \o <<cSQ>> : n \in QtyNums, u \in UnitPool}
+                 \cup {D_(<<5>>) \o <<cSpace>> \o <<cSQ>> \o u \o <<cSQ>> : u \in EscapedUnits}
                  \cup {n \o <<cSQ>> \o UnitMg \o <<cSQ>> : n \in QtyNums}
                  \cup {n \o <<cSpace>> \o kw : n \in QtyNums, kw \in Keywords}
 
@@ -177,6 +180,7 @@ JNumber(o) ==
               ELSE "none"
       bad == IF step = "lit" THEN o.lit ELSE IF step = "canon-reparse" THEN o.rt ELSE o.rteq
       unitClass == IF cs.sub # "quantity" THEN ""
+                   ELSE IF \E j \in 1..Len(cs.text) : cs.text[j] = cBS THEN "|unit-escaped"
                    ELSE IF p.v.unit \in Keywords THEN "|unit-keyword"
                    ELSE IF \A j \in 1..Len(p.v.unit) : (p.v.unit[j] >= 65 /\ p.v.unit[j] <= 90) \/ (p.v.unit[j] >= 97 /\ p.v.unit[j] <= 122) THEN "|unit-letters"
                    ELSE "|unit-other"
